@@ -500,3 +500,118 @@ func H_dataref(form, ka int) {
 		verifAssert(err != nil, "indexing a non-collection must fail")
 	}
 }
+
+// ---- chains of accesses ----
+
+// c01Step: reference for one access step (form 0 [0], 1 ?[0], 2 .k, 3 ?.k, 4 [1], 5 .z) on value v.
+// kind: 0 a value, 1 must fail, 2 null-safe short-circuit (the whole reference is null),
+// 3 no value (fails, or undefined).
+func c01Step(v data.Value, form int) (data.Value, int) {
+	nullsafe := form == 1 || form == 3
+	switch x := v.(type) {
+	case data.Undefined, data.Null:
+		if nullsafe {
+			return data.Null{}, 2
+		}
+		return nil, 1
+	case data.List:
+		switch form {
+		case 0, 1:
+			if len(x) > 0 {
+				return x[0], 0
+			}
+			return nil, 3
+		case 4:
+			if len(x) > 1 {
+				return x[1], 0
+			}
+			return nil, 3
+		}
+		return nil, 1
+	case data.Map:
+		switch form {
+		case 2, 3:
+			if e, ok := x["k"]; ok {
+				return e, 0
+			}
+			return nil, 3
+		case 5:
+			if e, ok := x["z"]; ok {
+				return e, 0
+			}
+			return nil, 3
+		}
+		return nil, 3
+	}
+	return nil, 1
+}
+
+func c01Access(form int) ast.Node {
+	switch form {
+	case 0, 1:
+		return &ast.DataRefIndexNode{NullSafe: form == 1, Index: 0}
+	case 2, 3:
+		return &ast.DataRefKeyNode{NullSafe: form == 3, Key: "k"}
+	case 4:
+		return &ast.DataRefExprNode{Arg: &ast.IntNode{Value: 1}}
+	}
+	return &ast.DataRefKeyNode{Key: "z"}
+}
+
+// H_datarefChain: $a<f1><f2>[<f3>] on scalars, collections and nested collections (some holding
+// null): a null-safe access of null ends the whole reference with null, any other access of
+// null/undefined fails, otherwise the accesses apply left to right. f3 = -1: two accesses.
+func H_datarefChain(f1, f2, f3, ka int) {
+	m := data.Map{}
+	var a data.Value
+	inner := data.Int(verifInt64())
+	switch {
+	case ka <= 8:
+		a = c01Bind(m, "a", ka)
+	case ka == 9:
+		a = data.Map{"k": data.Map{"k": inner, "z": data.Null{}}, "z": data.List{data.List{inner}}}
+	case ka == 10:
+		a = data.List{data.List{inner, data.Map{"k": inner}}, data.Map{"k": data.List{inner}}}
+	case ka == 11:
+		a = data.Map{"k": data.Null{}, "z": data.Map{}}
+	case ka == 12:
+		a = data.List{data.Null{}, data.List{}}
+	}
+	if ka > 8 {
+		m["a"] = a
+	}
+	forms := []int{f1, f2}
+	if f3 >= 0 {
+		forms = append(forms, f3)
+	}
+	var acc []ast.Node
+	for _, f := range forms {
+		acc = append(acc, c01Access(f))
+	}
+	got, err := evalWith(&ast.DataRefNode{Key: "a", Access: acc}, m)
+	cur := a
+	for i, f := range forms {
+		next, kind := c01Step(cur, f)
+		switch kind {
+		case 1:
+			verifAssert(err != nil, "an access of null/undefined or of a value of the wrong kind must fail")
+			return
+		case 2:
+			verifAssert(err == nil && sameValue(got, data.Null{}), "a null-safe access of null must make the whole reference null")
+			return
+		case 3:
+			// no value here: the step itself may fail; if it yields undefined, the next access
+			// decides (null-safe: null, otherwise failure)
+			if i == len(forms)-1 {
+				verifAssert(err != nil || sameValue(got, data.Undefined{}), "an absent element must have no value")
+			} else if nf := forms[i+1]; nf == 1 || nf == 3 {
+				verifAssert(err != nil || sameValue(got, data.Null{}), "a null-safe access of an absent element must be null (or fail)")
+			} else {
+				verifAssert(err != nil, "an access of an absent element must fail")
+			}
+			return
+		}
+		cur = next
+	}
+	verifAssert(err == nil && sameValue(got, cur), "a chain of accesses must yield the addressed element")
+}
